@@ -5213,6 +5213,29 @@ class Arc(Curve):
                 self.pry *= other
             if other.determinant < 0:
                 self.sweep = -self.sweep
+            if (
+                self.center is not None
+                and self.prx is not None
+                and self.pry is not None
+            ):
+                # prx, pry are conjugate radii after an affine map; restore the principal axes.
+                ux = self.prx.x - self.center.x
+                uy = self.prx.y - self.center.y
+                vx = self.pry.x - self.center.x
+                vy = self.pry.y - self.center.y
+                dot = ux * vx + uy * vy
+                if abs(dot) > 1e-12 * (ux * ux + uy * uy + vx * vx + vy * vy):
+                    t0 = atan2(2 * dot, (ux * ux + uy * uy) - (vx * vx + vy * vy)) / 2.0
+                    c0 = cos(t0)
+                    s0 = sin(t0)
+                    self.prx = Point(
+                        self.center.x + ux * c0 + vx * s0,
+                        self.center.y + uy * c0 + vy * s0,
+                    )
+                    self.pry = Point(
+                        self.center.x - ux * s0 + vx * c0,
+                        self.center.y - uy * s0 + vy * c0,
+                    )
         return self
 
     def __len__(self):
